@@ -163,3 +163,7 @@ func init() {
 func init() {
 	claim("C05", "W1", "M1", "M2", "F1", "F2", "W5", "ZONCE", "W3", "TC", "S3")
 }
+
+func init() {
+	claim("C17", "Z1", "Z2", "Z3", "Z4", "Z5")
+}
